@@ -448,6 +448,16 @@ func newPatchRunner(fset *token.FileSet, patches []*engine.Program) *patchRunner
 }
 
 func (r *patchRunner) Apply(filename string, f *ast.File) (fout *ast.File, comments []string, matched bool) {
+	// A patch that fits a file badly can make the engine build a tree
+	// that later steps cannot handle. Report that as a failure to update
+	// this file rather than crashing.
+	defer func() {
+		if p := recover(); p != nil {
+			r.errors = append(r.errors, fmt.Errorf("could not update %q: %v", filename, p))
+			fout, matched = nil, false
+		}
+	}()
+
 	snap := astdiff.Before(f, ast.NewCommentMap(r.fset, f, f.Comments))
 
 	for _, prog := range r.patches {
